@@ -43,6 +43,18 @@ CHECKS["C14"] = (
     "DESIGN.md §3 C14",
 )
 
+CHECKS["C12"] = (
+    "exploration",
+    "explicit state-machine reference model run in lock-step with the real descriptors over exhaustively enumerated access sequences",
+    "Every sequence (quick: length<=4 / 3, thorough: <=6 / 4) over {read, assign v1, assign v2, assign bad-type, delete, bump, poison "
+    "underlying state} is executed on a fresh real instance for all 16 spec_property option combinations x 4 hosts (plain, spec "
+    "unmanaged, spec managed, managed+preparer), and over (read via class, read/assign/delete via instance) x {Base, Mid, Leaf} for "
+    "all 32 classproperty combinations; the value or exception class of every access and the slot / underlying state after it are "
+    "compared with the state machine. Exhaustive within those bounds; nothing is claimed beyond them.",
+    "Trusted: the state machine in checks/c12.py (a successful deletion ends the cache epoch also with a custom deleter); custom setter/deleter bodies are harness code.",
+    "DESIGN.md §3 C12",
+)
+
 NOT_YET = {}
 
 
